@@ -1553,6 +1553,22 @@ def gen_c16(tier, seed):
                 nm = rng.choice([list(b"preexisting"), list(b".hidden"), list(b"caf\xe9")] + ([rng.choice(tops)] * 2 if tops else []))
                 st["holds_name"] = [int(b) for b in nm]
         scens.append({"id": sid("C16", "s", i), "props": ["C16"], "mode": "clean", "tags": ["sandbox"], "steps": steps})
+    # archive paths that are also real paths of this machine: the source tree holds /tmp/<unique>/..., and
+    # the host has files at exactly those absolute paths; plain restores, and restores in which a block
+    # cannot be read, touch nothing there
+    for i in range(4 if tier == "quick" else 40):
+        t = [node("/", "Dir"), node("/tmp", "Dir"), node("/tmp/@MIRROR@", "Dir"),
+             node("/tmp/@MIRROR@/report", "File", cvlib.rand_content(rng, 5) or b"\x01", mode=0o640),
+             node("/tmp/@MIRROR@/notes", "File", cvlib.rand_content(rng, 5) or b"\x02", mt=(1600000400, 0)),
+             node("/tmp/@MIRROR@/sub", "Dir", mode=0o750), node("/tmp/@MIRROR@/sub/deep", "File", b"\x03\x04", mt=(1600000401, 5)),
+             node("/tmp/@MIRROR@/cur", "Symlink", target="report"), node("/other", "File", b"\x09")]
+        o = {"H": rng.choice([2, 1000]), "M": 1000, "S": rng.choice([0, 0, 1000])}
+        steps = [{"op": "outside", "tree": OUTSIDE}, {"op": "tree", "tree": t}, bk(o),
+                 {"op": "restore", "band": 0, "dest": "fresh", "strace": i % 2 == 0},
+                 {"op": "restore", "band": 0, "subtree": "/tmp", "dest": "absent"},
+                 {"op": "damage_sweep", "with_header": False, "with_tails": False, "only": "Block", "hows": ["delete", "trunc0"], "sample": 0,
+                  "seed": seed * 100 + i, "then": [{"op": "restore", "band": 0, "dest": "fresh"}, {"op": "restore", "band": 0, "dest": "nonempty", "overwrite": True}]}]
+        scens.append({"id": sid("C16", "mirror", i), "props": ["C16"], "mode": "clean", "tags": ["sandbox", "host-mirror"], "steps": steps})
     return scens
 
 
